@@ -51,6 +51,17 @@ func genC04(t *rapid.T) c04Case {
 			genVegasFns(t, &c.Cfg) // documented constructor options; the bounds are the update path's job, not the functions'
 		}
 	}
+	if c.Cfg.Max > 1<<53 {
+		// a caller-supplied policy function that multiplies would carry the estimate beyond 2^53 within a few dozen
+		// samples - outside the range a float64 estimate holds exactly (domain decision, section 6); additive policies
+		// never get there
+		if c.Cfg.VInc == "dbl" {
+			c.Cfg.VInc = ""
+		}
+		if c.Cfg.VDec == "dbl" {
+			c.Cfg.VDec = ""
+		}
+	}
 	if !(c.Cfg.Algo == "aimd" && c.Cfg.Initial > 1<<20) {
 		genUnset(t, &c.Cfg) // short constructors and parameters left to the library's defaults
 	}
@@ -128,7 +139,7 @@ func runC04(_ *testing.T, c c04Case) kit.Outcome {
 		if c.Cfg.Algo == "aimd" {
 			hi = maxInt(initial, maxInf+incr)
 		}
-		if after < floor || after > hi {
+		if after < floor || (after > hi && !(hi > 1<<53 && float64(after) <= float64(hi))) { // (beyond 2^53 the ceiling itself is only representable to the nearest float)
 			return kit.Viol(c.Cfg.Algo+":bounds", "after sample %d %+v (in-flight %d): estimate %d -> %d outside [%d,%d]", i, s, inf, before, after, floor, hi)
 		}
 		if in := b.Inner.EstimatedLimit(); in != after {
